@@ -374,3 +374,21 @@ func H_C06_step2() {
 	h.check("after two operations every live object shows what the map model predicts")
 	verifReach("end")
 }
+
+// overwriting a field with a value that compares equal to the old one without being the same (a float with
+// the same numeric value and another bit pattern, e.g. -0.0 over 0.0): the last pair still wins
+func H_C06_overwrite_equal_scalar() {
+	f, g := hFiniteFloat(), hFiniteFloat()
+	k := hBytesStr(nondetIntRange(0, 1))
+	o := NewObject(k, f)
+	switch nondetIntRange(0, 2) {
+	case 0:
+		o.Set(k, g)
+	case 1:
+		o.Set(k, 1, k, g)
+	default:
+		o = o.Merge(NewObject(k, g))
+	}
+	verifAssert(o.Count() == 1 && o.TypeOf(k) == TypeFloat && verifFloatBits(o.GetFloat(k)) == verifFloatBits(g), "Set overwrites with the last pair winning / Merge prefers the argument's value (the value written, bit for bit)")
+	verifReach("end")
+}
